@@ -392,3 +392,61 @@ func VerifH_C08_rowRangeViewSeeks() {
 	}
 	vCover("range view")
 }
+
+// The (deprecated) Reader mixes two cursors: typed Read(&row) and ReadRows. Any
+// history of SeekToRow, Read and ReadRows returns the rows in file order from
+// the last seek target on.
+func VerifH_C08_readerMixedReads() {
+	vUnwind(1 << 16)
+	vAbstractCRCFixedWidth() // page checksums are not the subject
+	verifFixedL = true
+	const n = 5
+	rows := verifRowsL(n)
+	f, ok := verifOpenL(rows)
+	if !ok {
+		return
+	}
+	r := NewReader(f, SchemaOf(verifRecL{}))
+	defer r.Close()
+	schema := SchemaOf(verifRecL{})
+	next := 0
+	for op := 0; op < 3; op++ {
+		switch vChoose("op", 0, 2) {
+		case 0:
+			k := vChoose("seekTo", 0, n-1)
+			if err := r.SeekToRow(int64(k)); err != nil {
+				vAssert(false, "seek succeeds")
+				return
+			}
+			next = k
+		case 1:
+			var v verifRecL
+			err := r.Read(&v)
+			if next >= n {
+				vAssert(err == io.EOF, "the end of the file is reported")
+				continue
+			}
+			vAssert(err == nil && verifSameL(&v, &rows[next]), "typed Read returns the next row")
+			next++
+		case 2:
+			batch := make([]Row, vChoose("batch", 1, 2))
+			got, err := r.ReadRows(batch)
+			vAssert(err == nil || err == io.EOF, "ReadRows reports no error")
+			want := len(batch)
+			if next+want > n {
+				want = n - next
+			}
+			vAssert(got == want, "ReadRows returns the rows that remain, up to the batch size")
+			for i := 0; i < got && next+i < n; i++ {
+				var v verifRecL
+				if schema.Reconstruct(&v, batch[i]) != nil {
+					vAssert(false, "row re-assembles")
+					return
+				}
+				vAssert(verifSameL(&v, &rows[next+i]), "ReadRows continues where the previous read of either kind stopped")
+			}
+			next += got
+		}
+	}
+	vCover("mixed reads")
+}
